@@ -139,6 +139,7 @@ type rewriter struct {
 	closeCh  map[*ast.CallExpr]bool
 	rangeK   map[*ast.RangeStmt]string // "chan" | "map"
 	readdir  map[*ast.CallExpr]bool
+	lenCap   map[*ast.CallExpr]string
 	errs     []string
 	uniq     int
 }
@@ -186,7 +187,7 @@ func rewritePackage(dir string, feat *features, overlay map[string]string) (int,
 	for i, f := range files {
 		r := &rewriter{fset: fset, info: info, feat: feat, pkgDir: dir,
 			recv2: map[*ast.UnaryExpr]bool{}, makeChan: map[*ast.CallExpr]ast.Expr{}, closeCh: map[*ast.CallExpr]bool{},
-			rangeK: map[*ast.RangeStmt]string{}, readdir: map[*ast.CallExpr]bool{}}
+			rangeK: map[*ast.RangeStmt]string{}, readdir: map[*ast.CallExpr]bool{}, lenCap: map[*ast.CallExpr]string{}}
 		changed := r.rewriteFile(f)
 		if len(r.errs) > 0 {
 			return 0, fmt.Errorf("unsupported constructs:\n  %s", strings.Join(r.errs, "\n  "))
@@ -318,7 +319,7 @@ func (r *rewriter) rewriteFile(f *ast.File) bool {
 				case r.isBuiltin(id, "close"):
 					r.closeCh[n] = true
 				case (r.isBuiltin(id, "len") || r.isBuiltin(id, "cap")) && len(n.Args) == 1 && r.isChan(n.Args[0]):
-					r.errorf(n, "len/cap of a channel")
+					r.lenCap[n] = id.Name
 				}
 			}
 			if s, ok := n.Fun.(*ast.SelectorExpr); ok && r.feat.maprange && s.Sel.Name == "Readdirnames" {
@@ -388,6 +389,13 @@ func (r *rewriter) rewriteFile(f *ast.File) bool {
 					Fun:  &ast.IndexExpr{X: sel("csched", "MakeChan"), Index: elem},
 					Args: []ast.Expr{size},
 				})
+			} else if name, ok := r.lenCap[n]; ok {
+				r.sites++
+				m := "Len"
+				if name == "cap" {
+					m = "Cap"
+				}
+				c.Replace(&ast.CallExpr{Fun: &ast.SelectorExpr{X: n.Args[0], Sel: ast.NewIdent(m)}})
 			} else if r.closeCh[n] {
 				r.sites++
 				c.Replace(&ast.CallExpr{Fun: &ast.SelectorExpr{X: n.Args[0], Sel: ast.NewIdent("Close")}})
